@@ -1,5 +1,6 @@
 import KoordVerif.Model.C05
 import KoordVerif.Model.C05Prof
+import KoordVerif.Model.C05Sel
 import KoordVerif.Generated.C05
 /-
 Tie lemmas for C05: guard orders and condition shapes extracted from /repo's current source
@@ -174,5 +175,23 @@ theorem tie_unreserve_rsv_model (c : Cache) (listed : Option RObj) (pu n : Nat) 
 theorem tie_terminating_unschedulable :
     C05.unschedulableDef = "(_ || IsTerminating())" ∧
     C05.terminatingDef = "!_.GetObject().GetDeletionTimestamp().IsZero()" := by decide
+
+/-- util.GetFastLabelSelector: the labels-only fast path (SelectorFromValidatedSet(ps.MatchLabels)) is guarded by
+    "NO expressions AND some labels" (either order of the conjuncts); everything else goes through
+    LabelSelectorAsSelector.  ParseReservationOwnerMatchers parses an owner's selector with exactly this helper and
+    returns no matcher at all when any entry failed; MatchOwners answers false on a ParseError.
+    (seeded change round 5 dropped the `len(MatchExpressions) == 0` conjunct) -/
+theorem tie_fast_selector :
+    (C05.fastSelector = ["if:((len(#0.MatchExpressions) == 0) && (len(#0.MatchLabels) != 0))",
+        "then:SelectorFromValidatedSet(#0.MatchLabels)", "return:LabelSelectorAsSelector(#0)"] ∨
+     C05.fastSelector = ["if:((len(#0.MatchLabels) != 0) && (len(#0.MatchExpressions) == 0))",
+        "then:SelectorFromValidatedSet(#0.MatchLabels)", "return:LabelSelectorAsSelector(#0)"]) ∧
+    C05.ownerSelectorParse = ["selector=GetFastLabelSelector(.LabelSelector)", "errs:(len() > 0) => return nil"] ∧
+    C05.matchOwnersGate = "(.ParseError != nil) => return false" := by decide
+
+/-- the model's helper is that guard -/
+theorem tie_fast_selector_model (s : LabelSel) :
+    getFastLabelSelector s =
+      (if s.exprs.isEmpty && !s.labels.isEmpty then some { labels := s.labels, exprs := [] } else labelSelectorAsSelector s) := rfl
 
 end KoordVerif.C05
